@@ -31,6 +31,7 @@ def world_makers():
         "uni(q0)": lambda: catalog.uni_world("q0", closes=(200000, 200013, 199991, 199400, 200300, 200010)),
         "uni(q1)": lambda: catalog.uni_world("q1", closes=(200000, 200013, 199991, 199400, 200300, 200010)),
         "aave(path)": lambda: catalog.aave_path_world(5),
+        "aave(path,late-listing)": lambda: catalog.aave_path_world(5, late_token="LINK"),
         "uni+aave": lambda: catalog.uni_aave_world(4),
         "squeeth(ne)": lambda: catalog.squeeth_world("ne", n=10),
         "deribit": lambda: catalog.deribit_world(),
